@@ -138,6 +138,8 @@ def decl_source(d, doc=False, derive_debug_enums=True, vis="pub "):
         out.append("#[bitbybit::bitenum(%s)]" % ", ".join(args))
         if derive_debug_enums:
             out.append("#[derive(Debug, PartialEq, Eq)]")
+        if any(b >= 63 for v in e["variants"] for b in v["d"]):
+            out.append("#[repr(u64)]")  # Rust's own rule: discriminants default to isize
         out.append("%senum %s {" % (vis, e["name"]))
         for v in e["variants"]:
             if doc:
